@@ -5,6 +5,7 @@
 #include <xalanc/PlatformSupport/XalanOutputStreamPrintWriter.hpp>
 #include <xalanc/XalanTransformer/XalanDocumentBuilder.hpp>
 #include <xalanc/XalanTransformer/XercesDOMWrapperParsedSource.hpp>
+#include <xalanc/XalanTransformer/XercesDOMParsedSource.hpp>
 #include <xalanc/XalanTransformer/XalanSourceTreeWrapperParsedSource.hpp>
 #include <xalanc/XercesParserLiaison/XercesParserLiaison.hpp>
 #include <xalanc/XercesParserLiaison/XercesDOMSupport.hpp>
@@ -259,17 +260,31 @@ struct InputSourceAdapter : public XSLTInputSource {
 // Holds the helper objects a pre-parsed source form needs to stay alive.
 struct SourceHolder {
     const XalanParsedSource* ps = nullptr; bool ownedByTransformer = false;
-    std::unique_ptr<xercesc::XercesDOMParser> domParser; std::unique_ptr<XercesParserLiaison> xLiaison; std::unique_ptr<XercesDOMSupport> xSupport; std::unique_ptr<XercesDOMWrapperParsedSource> wrapper;
+    std::unique_ptr<xercesc::XercesDOMParser> domParser; std::unique_ptr<XercesParserLiaison> xLiaison; std::unique_ptr<XercesDOMSupport> xSupport; std::unique_ptr<XercesDOMWrapperParsedSource> wrapper; std::unique_ptr<XalanParsedSource> lazyWrapper;
     std::unique_ptr<XalanSourceTreeParserLiaison> stLiaison; std::unique_ptr<XalanSourceTreeDOMSupport> stSupport; std::unique_ptr<XalanSourceTreeWrapperParsedSource> stWrapper;
     XalanDocumentBuilder* builder = nullptr; XalanTransformer* owner = nullptr;
     int status = 0; std::string err; bool threw = false; std::string exc;
     ~SourceHolder() { release(); }
     void release() {
-        wrapper.reset(); xSupport.reset(); xLiaison.reset(); domParser.reset();
+        lazyWrapper.reset(); wrapper.reset(); xSupport.reset(); xLiaison.reset(); domParser.reset();
         stWrapper.reset(); stSupport.reset(); stLiaison.reset();
         if (owner) { if (builder) owner->destroyDocumentBuilder(builder); else if (ps && ownedByTransformer) owner->destroyParsedSource(ps); }
         builder = nullptr; ps = nullptr; owner = nullptr;
     }
+};
+
+// A caller's own XalanParsedSource over a document the Xerces liaison wraps with threadSafe = true and buildWrapper = false
+// (XercesParserLiaison::createDocument documents threadSafe as implying a fully built wrapper): what XercesDOMWrapperParsedSource
+// does, with the other legal value of the third argument.
+class LazyWrapperParsedSource : public XalanParsedSource {
+public:
+    LazyWrapperParsedSource(const xercesc::DOMDocument* d, XercesParserLiaison& l, const XalanDOMString& uri, xercesc::MemoryManager& mm) : m_liaison(l), m_doc(l.createDocument(d, true, false)), m_uri(uri, mm) {}
+    ~LazyWrapperParsedSource() { m_liaison.destroyDocument(m_doc); }
+    XalanDocument* getDocument() const override { return m_doc; }
+    XalanParsedSourceHelper* createHelper(xercesc::MemoryManager& mm) const override { return XercesDOMParsedSourceHelper::create(mm); }
+    const XalanDOMString& getURI() const override { return m_uri; }
+private:
+    XercesParserLiaison& m_liaison; XalanDocument* m_doc; XalanDOMString m_uri;
 };
 
 // build a pre-parsed source in the requested form; returns false (holder.status != 0) when parsing failed
@@ -282,7 +297,7 @@ inline bool makeSource(XEnv& env, const std::string& form, const std::string& do
             SimIStream is(seen, f, &env.fs.stats); XSLTInputSource in(&is, mm); in.setSystemId(xs(callerSysId.empty() ? sysId : callerSysId, mm).c_str());
             h.status = env.T->parseSource(in, h.ps, form == "parsed-xerces"); h.owner = env.T.get(); h.ownedByTransformer = true;
             if (h.status != 0) { h.err = env.T->getLastError(); h.ps = nullptr; h.owner = nullptr; }
-        } else if (form == "wrapper") {
+        } else if (form == "wrapper" || form == "wrapper-lazy") {
             h.domParser.reset(new xercesc::XercesDOMParser(nullptr, &mm)); QuietErrorHandler eh;
             h.domParser->setDoNamespaces(true); h.domParser->setErrorHandler(&eh); h.domParser->setValidationScheme(xercesc::XercesDOMParser::Val_Never); h.domParser->setCreateEntityReferenceNodes(false);
             SimInputSource src(seen, f, sysId, &env.fs.stats);
@@ -290,8 +305,8 @@ inline bool makeSource(XEnv& env, const std::string& form, const std::string& do
             if (eh.failed || !h.domParser->getDocument()) { h.status = -1; h.err = eh.msg.empty() ? "parse failed" : eh.msg; }
             else {
                 h.xLiaison.reset(new XercesParserLiaison(mm)); h.xSupport.reset(new XercesDOMSupport(*h.xLiaison));
-                h.wrapper.reset(new XercesDOMWrapperParsedSource(h.domParser->getDocument(), *h.xLiaison, *h.xSupport, xs(sysId, mm), mm));
-                h.ps = h.wrapper.get();
+                if (form == "wrapper-lazy") { h.lazyWrapper.reset(new LazyWrapperParsedSource(h.domParser->getDocument(), *h.xLiaison, xs(sysId, mm), mm)); h.ps = h.lazyWrapper.get(); }
+                else { h.wrapper.reset(new XercesDOMWrapperParsedSource(h.domParser->getDocument(), *h.xLiaison, *h.xSupport, xs(sysId, mm), mm)); h.ps = h.wrapper.get(); }
             }
         } else if (form == "stwrapper") {
             h.stLiaison.reset(new XalanSourceTreeParserLiaison(mm)); h.stSupport.reset(new XalanSourceTreeDOMSupport(*h.stLiaison));
